@@ -359,6 +359,14 @@ def mux_check(prop, tier, seed, replay):
                     raise ToolError("mux_sim script failed on the fault enumeration: " + o[-400:])
                 mc_runs.append(dict(config="fault enumeration", base_schedules=len(bases), schedules=len(fe)))
                 batches.append(("fault-enum", out))
+            # 2d. the directed schedules of the open known findings of this property (so that each is met in every run)
+            for k in known_for(prop):
+                if k.get("schedule"):
+                    out = os.path.join(work, f"finding_{k['id']}.ndjson")
+                    rc, o = vlib.run([bin_path, "script", os.path.join(vlib.VERIF, k["schedule"]), out], timeout=600)
+                    if rc not in (0, 3):
+                        raise ToolError(f"mux_sim script failed on {k['schedule']}: " + o[-400:])
+                    batches.append((f"finding-{k['id']}", out))
         # 3. every trace is validated by TLC against the trace specification
         for mode, out in batches:
             r = vlib.validate_batch("MuxTrace", "MuxTrace", out, timeout=3000)
